@@ -372,6 +372,46 @@ class View(object):
                 if self._pair_involves(k, p, x):
                     ps.discard(p)
 
+    def db_bulk_delete(self, ent_name, mids, has_column=None):
+        """What one `DELETE FROM <table> WHERE ...` does to stored rows under the foreign keys Pony declares
+        (Database.generate_mapping): ON DELETE CASCADE where the referenced side's attribute cascades, SET NULL for
+        optional references, otherwise the statement fails when a referring row is left (checked at statement
+        end); link tables cascade.  Returns False (view untouched) when the statement fails."""
+        has_column = has_column or self._has_column
+        doomed = set(mids)
+        nulled = []
+        work = list(doomed)
+        restrict = []
+        while work:
+            d = work.pop()
+            od = self.objs[d]
+            for e in self.schema.entities:
+                for a in e.to_ones():
+                    if a.rel != od.ent or not has_column(a):
+                        continue
+                    for s in self.partners(a.reverse, d):
+                        if s in doomed:
+                            continue
+                        if a.reverse.cascade:
+                            doomed.add(s)
+                            work.append(s)
+                        elif not a.required:
+                            nulled.append((a, s, d))
+                        else:
+                            restrict.append((s, a))
+        if any(s not in doomed for (s, a) in restrict):
+            return False
+        for (a, s, d) in nulled:
+            if s not in doomed:
+                self.unlink(a, s, d)
+        for d in doomed:
+            self.objs[d].deleted = True
+        for k, ps in self.rels.items():
+            for p in [p for p in ps if (p[0] in doomed and self._pair_involves(k, p, p[0])) or
+                      (p[1] in doomed and self._pair_involves(k, p, p[1]))]:
+                ps.discard(p)
+        return True
+
     def _pair_involves(self, key, pair, x):
         ent, attr = key
         a = self.schema.by_name[ent].by_name[attr]
